@@ -82,11 +82,15 @@ type AttemptObs struct {
 	WP      []int   `json:"wp"`
 	WC      []int   `json:"wc"`
 	Msgs    []Msg   `json:"msgs"`
-	Outcome string  `json:"outcome"` // delivered | failed | livelock
+	Outcome string  `json:"outcome"` // delivered | failed | livelock | stalled
 	SyncErr string  `json:"sync_err,omitempty"`
 	Calls   []HCall `json:"calls"`
 	GotUpd  []int   `json:"got_upd"`
 	Active  bool    `json:"active"`
+	// Usable: the runtime's plugin-sync lock was free again after this registration (see Obs.Usable)
+	Usable       bool `json:"usable"`
+	UsableBoundS int  `json:"usable_bound_s,omitempty"`
+	StallS       int  `json:"stall_s,omitempty"`
 }
 
 // ResyncObs is what one case showed.
@@ -96,12 +100,16 @@ type ResyncObs struct {
 	Limit    int           `json:"limit"`
 	Attempts []*AttemptObs `json:"attempts"`
 	Millis   int64         `json:"ms"`
+	// Planned registrations; fewer were run when one stalled or left the runtime unusable
+	Planned int  `json:"planned"`
+	Exit    bool `json:"exit,omitempty"` // see Obs.Exit
 }
 
 // ---------------------------------------------------------------- worker side
 
 type resyncRec struct {
 	sync.Mutex
+	last     time.Time
 	nupd     int
 	bound    int
 	cur      *AttemptObs
@@ -139,9 +147,10 @@ func (p *resyncPlugin) RunPodSandbox(_ context.Context, pod *api.PodSandbox) err
 
 const closeWait = 120 * time.Second
 
-func runResync(dir string, k int, sp *ResyncSpec) (*ResyncObs, error) {
+func runResync(dir string, k int, sp *ResyncSpec, stall time.Duration) (*ResyncObs, error) {
 	t0 := time.Now()
-	out := &ResyncObs{Hdr: hdrLen(), Limit: maxMsgLen(), MoreCost: proto.Size(&api.SynchronizeRequest{More: true})}
+	out := &ResyncObs{Hdr: hdrLen(), Limit: maxMsgLen(), MoreCost: proto.Size(&api.SynchronizeRequest{More: true}), Planned: len(sp.Attempts)}
+	poisoned := false
 	sock := filepath.Join(dir, fmt.Sprintf("r%d.sock", k))
 	defer os.Remove(sock)
 
@@ -180,7 +189,7 @@ func runResync(dir string, k int, sp *ResyncSpec) (*ResyncObs, error) {
 		return nil
 	}
 	defer func() {
-		if rt != nil {
+		if rt != nil && !poisoned {
 			rt.Stop()
 		}
 	}()
@@ -194,6 +203,7 @@ func runResync(dir string, k int, sp *ResyncSpec) (*ResyncObs, error) {
 			err := unmarshal(i)
 			if req, ok := i.(*api.SynchronizeRequest); ok && err == nil {
 				rec.Lock()
+				rec.last = time.Now()
 				over := rec.cur == nil || len(rec.cur.Msgs) >= rec.bound
 				if over {
 					rec.livelock = true
@@ -219,7 +229,16 @@ func runResync(dir string, k int, sp *ResyncSpec) (*ResyncObs, error) {
 	if err != nil {
 		return nil, err
 	}
-	defer st.Stop()
+	defer func() {
+		if !poisoned {
+			st.Stop()
+		}
+	}()
+	lastMsg := func() time.Time {
+		rec.Lock()
+		defer rec.Unlock()
+		return rec.last
+	}
 
 	for j, as := range sp.Attempts {
 		if rt == nil {
@@ -245,9 +264,20 @@ func runResync(dir string, k int, sp *ResyncSpec) (*ResyncObs, error) {
 		if err := st.Start(context.Background()); err != nil {
 			return nil, fmt.Errorf("registration %d: stub start: %w", j+1, err)
 		}
-		res := <-done // the parent's watchdog bounds this wait
+		res, stalled := waitSync(done, lastMsg, stall)
+		if stalled {
+			// the runtime neither synchronised this registration nor failed it (it is still inside
+			// synchronize, or an earlier registration left the plugin-sync lock held)
+			poisoned = true
+			rec.Lock()
+			ao.Outcome, ao.StallS = "stalled", int(stall.Seconds())
+			rec.cur = nil
+			rec.Unlock()
+			out.Exit = true
+			break
+		}
 		// registration is finished (plugin appended or dropped) once the sync lock is free again
-		rt.BlockPluginSync().Unblock()
+		ao.Usable, ao.UsableBoundS = syncLockFree(rt)
 		ctx, cancel := context.WithTimeout(context.Background(), regTimeout)
 		perr := rt.RunPodSandbox(ctx, &api.StateChangeEvent{Pod: &api.PodSandbox{Id: "probe"}})
 		cancel()
@@ -287,6 +317,10 @@ func runResync(dir string, k int, sp *ResyncSpec) (*ResyncObs, error) {
 		rec.Unlock()
 		for _, u := range res.upd {
 			ao.GotUpd = append(ao.GotUpd, parseID('c', u.GetContainerId()))
+		}
+		if !ao.Usable {
+			// the next registration would block behind the lock: the remaining ones are not run
+			break
 		}
 	}
 	out.Millis = time.Since(t0).Milliseconds()
@@ -517,7 +551,12 @@ func resyncOracle(o *ResyncObs, nupd, min int) []string {
 					len(gp), len(gc), len(owedP), len(owedC)))
 			}
 		}
+		if !a.Usable && (a.Outcome == "delivered" || a.Outcome == "failed") {
+			bad = append(bad, pre+fmt.Sprintf("after the registration (%s) the runtime's plugin-sync lock was not released: BlockPluginSync() still blocked after %d s, the next registration cannot proceed", a.Outcome, a.UsableBoundS))
+		}
 		switch a.Outcome {
+		case "stalled":
+			bad = append(bad, pre+fmt.Sprintf("neither completed nor failed: after %d accepted message(s) the runtime sent nothing and reported nothing for %d s", len(a.Msgs), a.StallS))
 		case "delivered":
 			var ps, cs [][2]int
 			for i, m := range a.Msgs {
@@ -592,9 +631,11 @@ func coqResync(sp *ResyncSpec, o *ResyncObs) string {
 			oc = "ODelivered"
 		case "failed":
 			oc = "OFailed"
+		case "stalled":
+			oc = "OStalled"
 		}
-		as = append(as, fmt.Sprintf("{| at_base := %d%%Z; at_wp := %s; at_wc := %s; at_msgs := %s; at_outcome := %s; at_calls := %s; at_upd := %s; at_active := %s |}",
-			a.Base, zweights(a.WP), zweights(a.WC), coqMsgs(a.Msgs), oc, coqCalls(a.Calls), zlist(a.GotUpd), coqBool(a.Active)))
+		as = append(as, fmt.Sprintf("{| at_base := %d%%Z; at_wp := %s; at_wc := %s; at_msgs := %s; at_outcome := %s; at_calls := %s; at_upd := %s; at_active := %s; at_usable := %s |}",
+			a.Base, zweights(a.WP), zweights(a.WC), coqMsgs(a.Msgs), oc, coqCalls(a.Calls), zlist(a.GotUpd), coqBool(a.Active), coqBool(a.Usable)))
 	}
 	return fmt.Sprintf("{| rs_hdr := %d%%Z; rs_more := %d%%Z; rs_limit := %d%%Z; rs_nupd := %d%%Z; rs_attempts := [%s] |}",
 		o.Hdr, o.MoreCost, o.Limit, sp.NUpd, strings.Join(as, "; "))
@@ -614,7 +655,7 @@ func handleResync(c *hx.Ctx, t tagged, rs result, min int, sh **hx.Shard, tot *r
 		if rs.obs != nil && rs.obs.Outcome == "crashed" {
 			what = "the runtime process crashed during a re-registration: " + firstLine(rs.obs.Crash)
 		} else if rs.obs != nil && rs.obs.Outcome == "stalled" {
-			what = fmt.Sprintf("a re-registration neither completed nor failed within %v", caseTimeout)
+			what = fmt.Sprintf("a re-registration neither completed nor failed and the worker no longer answered (%d s)", rs.obs.StallS)
 		}
 		c.ImplFail(t.stream, what, map[string]interface{}{"stream": t.stream, "name": sp.Name, "spec": sp.Resync.compact()})
 		c.Eval(sp.Name, true)
@@ -629,14 +670,15 @@ func handleResync(c *hx.Ctx, t tagged, rs result, min int, sh **hx.Shard, tot *r
 		Calls   []HCall  `json:"handler_calls"`
 		GotUpd  []int    `json:"got_upd"`
 		Active  bool     `json:"active"`
+		Usable  bool     `json:"usable"`
 		WPRLE   [][2]int `json:"wp_rle"`
 		WCRLE   [][2]int `json:"wc_rle"`
 	}
 	var ras []rawAttempt
 	for _, a := range o.Attempts {
-		ras = append(ras, rawAttempt{a.Base, a.Outcome, a.SyncErr, a.Msgs, a.Calls, a.GotUpd, a.Active, toRLE(a.WP), toRLE(a.WC)})
+		ras = append(ras, rawAttempt{a.Base, a.Outcome, a.SyncErr, a.Msgs, a.Calls, a.GotUpd, a.Active, a.Usable, toRLE(a.WP), toRLE(a.WC)})
 	}
-	raw := map[string]interface{}{"stream": t.stream, "name": sp.Name, "spec": sp.Resync.compact(), "registrations": ras}
+	raw := map[string]interface{}{"stream": t.stream, "name": sp.Name, "spec": sp.Resync.compact(), "registrations": ras, "registrations_planned": o.Planned}
 	for _, what := range resyncOracle(o, sp.Resync.NUpd, min) {
 		c.ImplFail(t.stream, what, raw)
 	}
